@@ -234,6 +234,7 @@ package httpcache
 //@   let ageIn = old(fAge(freshness, now))
 //@   let validated304 = err == nil && resp.StatusCode == 304
 //@   assigns storeWrites, lastSetOK, lastSetKey, lastRefs, bodyReadFailed, deletedKeys, lastStoredResp, lastStoredReqTime, validatedWithRealAge, lastStoredRespTime, lastStoredRefIndex, now, map(stored.Data.Header), map(resp.Header), resp.Body, stored.Data.Body
+//@   callsite ResponseStorer.StoreResponse :: resp == resp_caller || (forall k string :: has(resp_caller.Header, k) && !omitted304(resp_caller.Header, k) && k != "X-Httpcache-Status" && k != "X-From-Cache" ==> has(resp.Header, k) && get(resp.Header, k) == get(resp_caller.Header, k))   # name: what-is-written-back-after-a-304-carries-the-304s-fields   props: C01 C02 C11 C08
 //@   ensures validatedWithRealAge == old(realAge(freshness, stored))                               # ghost-update
 //@   ensures upstreamCalls == old(upstreamCalls)                                                   # name: no-upstream
 //@   ensures (result0 != nil) != (result1 != nil)                                                  # name: result-shape   props: C10
